@@ -308,7 +308,9 @@ func (g *gen) opC15() Op {
 		if g.chance(0.12) && argNum < len(args) {
 			// a '*' width: consumes an int operand before the verb's own
 			d.Wid = "*"
-			args[argNum] = Val{K: "int", I: int64(g.r.Intn(9))}
+			if g.chance(0.7) {
+				args[argNum] = Val{K: "int", I: int64(g.r.Intn(9))}
+			} // else: whatever is there - unusable as a width, reported as BADWIDTH, but still consumed
 			argNum++
 			starred = true
 		}
